@@ -79,7 +79,16 @@ def run(ctx):
     r2.check(okl, f"{um.rel}:merge_dicts:non-dict", "for non-dict operands the last one does not take precedence", um.rel, md.lineno)
     t = src(md)
     okr = okr and f"for dct in {p}:" in t and "key2values[key].append(value)" in t
-    r2.check(okr, f"{um.rel}:merge_dicts:recursive", "dict operands are not merged per key recursively in operand order", um.rel, md.lineno)
+    from ..flow import merge_purity_obligations
+
+    purity = merge_purity_obligations(repo)
+    if not okr:
+        # another way of writing the merge: accepted when it is recursive (directly or through a helper) and does not write into its inputs
+        recursive = any(isinstance(c, ast.Call) and isinstance(c.func, ast.Name) and c.func.id in um.funcs for c in ast.walk(md))
+        okr = recursive and all(ok for _, ok, _, _, _ in purity)
+    r2.check(okr, f"{um.rel}:merge_dicts:recursive", "dict operands are not merged per key recursively in operand order (or the merge writes into its operands)", um.rel, md.lineno)
+    for construct, ok, msg, rel_, line in purity:
+        r2.check(ok, construct, msg, rel_, line)
 
     r3 = ctx.rule("C26.3", "path lookup: subscript only behind the dict test, inside except KeyError -> default", floor=3)
     gv = cm.func("get_context_value")
